@@ -550,6 +550,46 @@ def gen_values(rng):
     return finish(rng, spec, 'values')
 
 
+def gen_rework(rng):
+    """Documented rework loop: a gate on the part's mutable state (quality, raised by the machine) leads back into an
+    earlier buffer with a positive delay (W5); the complementary gate leads on to the sink."""
+    spec = {'devs': [], 'groups': [], 'res': {}, 'actions': [], 'loops': []}
+    devs = spec['devs']
+    devs.append({'k': 'S', 'n': 'S0', 'c': rng.choice([0.5, 1, 2, 3]), 'budget': rng.choice([1, 2, 3, 5, 8]), 'batch': None,
+                 'val': 1})
+    devs.append({'k': 'B', 'n': 'B0', 'c': rng.choice([0.25, 0.5, 1]), 'cap': INF, 'up': ['S0']})
+    nm = rng.choice([1, 1, 2])
+    ms = []
+    for i in range(nm):
+        devs.append({'k': 'P', 'n': f'M{i}', 'c': rng.choice([0.5, 1, 1.5, 2]), 'up': ['B0'], 'res': None, 'alt': None,
+                     'wod': 1, 'wocap': 1, 'wocost': 0, 'qadd': 1})
+        ms.append(f'M{i}')
+    q = rng.choice([2, 3, 3, 4])
+    devs.append({'k': 'G', 'n': 'Gok', 'q': q, 'neg': False, 'up': list(ms)})
+    devs.append({'k': 'G', 'n': 'Gre', 'q': q, 'neg': True, 'up': list(ms)})
+    if rng.random() < 0.5:
+        devs.append({'k': 'H', 'n': 'Hout', 'c': rng.choice([0, 1, 2.5]), 'up': ['Gok']})
+        devs.append({'k': 'K', 'n': 'K0', 'c': rng.choice([0, 1]), 'up': ['Hout']})
+    else:
+        devs.append({'k': 'K', 'n': 'K0', 'c': rng.choice([0, 1, 2.5]), 'up': ['Gok']})
+    spec['loops'].append(['Gre', 'B0'])
+    acts = []
+    for _ in range(rng.choice([0, 0, 2, 4])):
+        t = rng.choice(TIMES)
+        pr = rng.choice(PRIOS)
+        r = rng.random()
+        if r < 0.4:
+            acts.append([t, pr, 'block', rng.choice(ms + ['B0']), rng.random() < 0.5])
+        elif r < 0.7:
+            acts.append([t, pr, 'maint', rng.choice(ms), rng.choice([0.5, 2.75])])
+        else:
+            acts.append([t, pr, 'adjust', 'S0', rng.choice([1, 2])])
+    spec['actions'] = acts
+    spec = finish(rng, spec, 'rework')
+    spec['T'] = [rng.choice([15, 25, 40])]
+    return spec
+
+
 def gen_parallel(rng):
     """Idle-longest profile: source(s) -> one holding device -> 2-4 parallel single-slot devices (handlers,
     processors with pool needs, sinks) whose inputs are blocked/unblocked and which are shut down / failed / restored
@@ -557,6 +597,9 @@ def gen_parallel(rng):
     spec = {'devs': [], 'groups': [], 'res': {'r': rng.choice([1, 2, 3])}, 'actions': []}
     devs = spec['devs']
     G = [0.5, 1, 1, 2, 3, 4.5]
+    stuck = rng.random() < 0.5      # slow common sink: the parallel devices get stuck holding a finished part
+    if stuck:
+        G = [0.5, 0.5, 1, 1.5]
     ns = rng.choice([1, 2])
     for i in range(ns):
         devs.append({'k': 'S', 'n': f'S{i}', 'c': rng.choice(G), 'budget': rng.choice([4, 9, INF]), 'batch': None, 'val': 0})
@@ -580,7 +623,7 @@ def gen_parallel(rng):
         if k != 'K':
             nonsink.append(f'X{i}')
     if nonsink:
-        devs.append({'k': 'K', 'n': 'K', 'c': rng.choice([0, 1, 2]), 'up': nonsink})
+        devs.append({'k': 'K', 'n': 'K', 'c': rng.choice([2, 3, 4.5]) if stuck else rng.choice([0, 1, 2]), 'up': nonsink})
     acts = []
     for _ in range(rng.choice([0, 3, 6, 10])):
         t = rng.choice([1, 2, 2.5, 4, 5, 7, 9, 12])
@@ -596,13 +639,19 @@ def gen_parallel(rng):
                 acts.append([t, pr, 'fail', x, 0])
             else:
                 acts.append([t, pr, 'restore', x])
+    for _ in range(rng.choice([0, 1, 2, 3])):
+        # block and shortly afterwards unblock a parallel device (it may be busy or hold a finished part then)
+        x, k = rng.choice(par)
+        t = rng.choice([1, 2, 3, 4.5, 6, 8])
+        acts.append([t, rng.choice(PRIOS), 'block', x, True])
+        acts.append([t + rng.choice([0.5, 1, 1.5, 2.5]), rng.choice(PRIOS), 'block', x, False])
     spec['actions'] = acts
     spec = finish(rng, spec, 'parallel')
     spec['T'] = [rng.choice([10, 20, 40])]
     return spec
 
 
-PROFILES = {'parallel': gen_parallel, 'values': gen_values, 'general': gen_general, 'groups': gen_groups, 'contention': gen_contention, 'buffers': gen_buffers,
+PROFILES = {'rework': gen_rework, 'parallel': gen_parallel, 'values': gen_values, 'general': gen_general, 'groups': gen_groups, 'contention': gen_contention, 'buffers': gen_buffers,
             'noise': lambda r: gen_buffers(r, True), 'interrupt': gen_interrupt, 'batching': gen_batching}
 
 
@@ -667,10 +716,12 @@ def well_posed(spec):
             seen.add(d['n'])
         gates = [d for d in devs if d['k'] == 'G']
         for g in gates:
-            twin = [h for h in gates if h is not g and h['mod'] == g['mod'] and h['neg'] != g['neg']
-                    and sorted(h['up']) == sorted(g['up'])]
-            if g['mod'] < 2 or not twin:
+            twin = [h for h in gates if h is not g and h.get('mod') == g.get('mod') and h.get('q') == g.get('q')
+                    and h['neg'] != g['neg'] and sorted(h['up']) == sorted(g['up'])]
+            if ('q' not in g and g['mod'] < 2) or not twin:
                 return False
+            if 'q' in g:
+                continue
             # both gates of a pair feed the same devices
             fed_g = sorted(d['n'] for d in devs if g['n'] in d.get('up', []))
             if not any(sorted(d['n'] for d in devs if h['n'] in d.get('up', [])) == fed_g for h in twin):
@@ -681,6 +732,12 @@ def well_posed(spec):
             if v < 0:
                 return False
         names = seen | gnames
+        for (frm, to) in spec.get('loops', []):
+            if frm not in names or to not in names:
+                return False
+            bd = [d for d in devs if d['n'] == to]
+            if not bd or bd[0]['k'] != 'B' or not bd[0]['c'] > 0:
+                return False
         for a in spec['actions']:
             if a[0] < 0 or a[1] <= 1:
                 return False
